@@ -192,7 +192,7 @@ def gen_export(r, rich=False, pre=False, many=False):
 
 
 EXPORT_CORRUPTIONS = ["kind", "version", "version-old", "no-track-selected", "no-track-spread", "unknown-track", "timestamp", "del-courses", "del-regs", "del-event",
-               "seg-not-bool", "no-nr", "no-shortname", "min>max", "no-fields", "no-persona", "no-family", "status-str", "no-tracks",
+               "seg-not-bool", "no-nr", "no-shortname", "min>max", "skipped-no-nr", "skipped-no-shortname", "skipped-min>max", "no-fields", "no-persona", "no-family", "status-str", "no-tracks",
                "no-regtrack", "dangling-choice", "dangling-assigned", "dangling-instr", "choice-str", "no-choices", "no-id", "no-track-shortname",
                "regs-array", "course-null", "no-course-id-member", "no-instr-member", "parts-array", "tracks-missing-in-part", "min>default-max"]
 
@@ -274,6 +274,26 @@ def corrupt_export(r, doc, opts, info, what=None):
         c = r.choice(cs)
         doc["courses"][c]["min_size"] = 5
         doc["courses"][c]["max_size"] = 4
+    elif what in ("skipped-no-nr", "skipped-no-shortname", "skipped-min>max"):
+        # the same defects in a course the reader skips (not offered in the track, or cancelled with
+        # --ignore-cancelled): a broken course object is refused wherever it sits
+        if not cs:
+            return None
+        skipped = [c for c in cs if t not in doc["courses"][c]["segments"] or (doc["courses"][c]["segments"][t] is False and opts["ic"])]
+        if skipped:
+            c = r.choice(skipped)
+        else:
+            c = r.choice(cs)
+            if r.random() < 0.5:
+                doc["courses"][c]["segments"].pop(t, None)
+            else:
+                doc["courses"][c]["segments"][t] = False; opts["ic"] = True
+        if what == "skipped-no-nr":
+            doc["courses"][c]["nr"] = r.choice([None, 7])
+        elif what == "skipped-no-shortname":
+            doc["courses"][c].pop("shortname", None)
+        else:
+            doc["courses"][c]["min_size"] = 5; doc["courses"][c]["max_size"] = 4
     elif what == "no-fields":
         kept = [c for c in cs if t in doc["courses"][c]["segments"] and (doc["courses"][c]["segments"][t] or not opts["ic"])]
         if not kept:
@@ -476,6 +496,9 @@ def gen_simple(r, rooms_mode=1, big=False):
         if cands:
             p, ci = r.choice(cands)
             courses[ci].setdefault("hidden_participant_names", []).append(p["name"])
+    if all(not p["choices"] for p in parts):
+        # (the twins dial may have copied an empty list over the only choices: stay inside the validity domain)
+        parts[0]["choices"] = [{"course": 0, "penalty": 0}]
     rooms = None
     if rooms_mode == 2 or (rooms_mode == 1 and r.random() < 0.5):
         n = r.randint(1, nc + 2)
@@ -629,6 +652,13 @@ def stream_cdedb_read(seed, tier, workdir, stream):
                         trs[r.choice(["+", "0", "00"]) + tk] = trs.pop(tk)
                 if r.random() < 0.3:
                     evp[r.choice(["+", "0"]) + pk] = evp.pop(pk)
+        elif i % 20 == 16:
+            # the selected track does not say how many choices it has (the reader counts 0 then) — together with
+            # --ignore-assigned and people assigned to courses they did not choose (i % 5 == 1: many of them)
+            for pv in doc["event"]["parts"].values():
+                tv = pv["tracks"].get(str(info["sel_track"]))
+                if isinstance(tv, dict):
+                    tv.pop("num_choices", None)
         elif i % 20 == 2:
             # the SAME id under two spellings, both present ("7" and "07"): a second course / registration
             # record with other contents (the id → index map keeps the last one in sorted order)
@@ -860,7 +890,7 @@ def lines_cdedb_read(cases, workdir, stream):
                         got = [ok["courses"][ci][2], ok["courses"][ci][3], ok["courses"][ci][5], ok["courses"][ci][6]]
                         if want != got:
                             fprobs.append(f"course {cid}: expected [min,max,factor bits,offset bits] {want} (factor {fac}, offset {off}), reader {got}")
-                    out.append(line("direct", ["C12"] + (["C11"] if c["opts"]["ia"] else []), ok=not fprobs,
+                    out.append(line("direct", ["C12"] + (["C11", "C06"] if c["opts"]["ia"] else []), ok=not fprobs,
                                     what="; ".join(fprobs[:3]) or "size limits and room factor / offset as the export gives them", case=i, stream=stream))
                     out.append(line("direct", ["C12"], ok=good, what=f"declarative problem: courses {kept} participants {exp_parts[:6]} vs reader courses {got_courses} participants {got_parts[:6]}", case=i, stream=stream))
             except Exception as e:
@@ -1025,6 +1055,12 @@ def stream_e2e_cde(seed, tier, workdir, stream):
                         gt["course_id"] = None
                 g = doc["registrations"][keys[0] if i % 20 == 7 else keys[len(keys) // 2]]
                 g["tracks"][t].update({"choices": [], "course_instructor": int(x), "course_id": None})
+        if i % 12 == 5:
+            # (see cdedb-read) no num_choices in the selected track, with many pre-assigned people
+            for pv in doc["event"]["parts"].values():
+                tv = pv["tracks"].get(str(info["sel_track"]))
+                if isinstance(tv, dict):
+                    tv.pop("num_choices", None)
         if i % 8 == 1:
             # namesakes: people sharing one printed name (all of them, or pairs) — names identify nobody
             regs = list(doc["registrations"].values())
